@@ -66,7 +66,19 @@ func genZone(t *rapid.T) string {
 }
 
 func genIP(t *rapid.T) (ip net.IP, kind string) {
-	switch rapid.IntRange(0, 4).Draw(t, "ipKind") {
+	switch rapid.IntRange(0, 6).Draw(t, "ipKind") {
+	case 5, 6:
+		// group-wise from boundary values: exact and near-miss forms of the special prefixes
+		// (::ffff:a.b.c.d, ::a.b.c.d, 64:ff9b::, fe80::, ff0x::) that uniform bytes never produce
+		ip := make(net.IP, 16)
+		for g := 0; g < 8; g++ {
+			v := rapid.SampledFrom([]int{0, 0, 0, 0xffff, 0xffff, 1, 0xfffe, 0x00ff, 0xff00, 0xfe80, 0xff02, 0x0064, 0xff9b, -1}).Draw(t, "group")
+			if v < 0 {
+				v = rapid.IntRange(0, 0xffff).Draw(t, "groupValue")
+			}
+			ip[2*g], ip[2*g+1] = byte(v>>8), byte(v)
+		}
+		return ip, "ipv6-structured"
 	case 0:
 		b := rapid.SliceOfN(rapid.Byte(), 4, 4).Draw(t, "ip4")
 		return net.IP(b), "ipv4/4"
